@@ -17,7 +17,7 @@ Theorem pipeline_exact p q db top_only keys slices :
   spec_slices top_only (ordered keys (filter (eval p) db)) slices.
 Proof.
   intros Hq [Hs [W Hpl]].
-  rewrite (select_exact current false true (or_intror eq_refl) p q db Hq Hs W (or_introl eq_refl) Hpl).
+  rewrite (select_exact current false true true (or_intror eq_refl) (or_introl eq_refl) p q db Hq Hs W (or_introl eq_refl) Hpl).
   apply slices_current.
 Qed.
 
@@ -83,3 +83,32 @@ Proof.
   rewrite (pipeline_exact p q db top_only keys slices Hq G). reflexivity.
 Qed.
 
+
+(* ---------- the code with the four proposed repairs (`next`) ---------- *)
+(* the guard no longer mentions Or-merges over different tables, negated info tests, negated
+   attribute tests or NULL columns; what remains: LIKE-plain strings, and the (computable) side
+   condition that every negated junction could be rebuilt *)
+Definition guard_next (p : pred) (db : list fit) : Prop :=
+  safe_with next false false true false p = true /\
+  forallb wf_fit db = true /\
+  forallb (fun f => forallb (acond_plain f) (attr_tests p)) db = true.
+
+Theorem exact_next p q f :
+  compile next p = Ok q -> safe_with next false false true false p = true -> wf_fit f = true ->
+  forallb (acond_plain f) (attr_tests p) = true -> sem q f = eval p f.
+Proof.
+  intros Hq Hs W Hp.
+  exact (compile_exact next false false false (or_intror eq_refl) (or_intror eq_refl) p q f Hq Hs W
+                       (or_intror (or_intror eq_refl)) Hp).
+Qed.
+
+Theorem pipeline_exact_next p q db top_only keys slices :
+  compile next p = Ok q -> guard_next p db ->
+  run_slices next top_only (ordered keys (select q db)) slices =
+  spec_slices top_only (ordered keys (filter (eval p) db)) slices.
+Proof.
+  intros Hq [Hs [W Hpl]].
+  rewrite (select_exact next false false false (or_intror eq_refl) (or_intror eq_refl) p q db Hq Hs W
+                        (or_intror (or_intror eq_refl)) Hpl).
+  apply slices_fixed. reflexivity.
+Qed.
